@@ -143,6 +143,10 @@ type Store[K comparable, V any] struct {
 	cancel            context.CancelFunc
 	maintenanceTicker *time.Ticker
 	waitChan          chan bool
+	// one channel per pending Wait call, keyed by the id its marker carries
+	waitMu  sync.Mutex
+	waitSeq uint64
+	waiters map[uint64]chan struct{}
 }
 
 type StoreOptions[K comparable, V any] struct {
@@ -203,6 +207,7 @@ func NewStore[K comparable, V any](options *StoreOptions[K, V]) *Store[K, V] {
 		secondaryCache:  options.SecondaryCache,
 		probability:     options.Probability,
 		waitChan:        make(chan bool),
+		waiters:         make(map[uint64]chan struct{}),
 	}
 	if options.EntryPool {
 		s.entryPool = &sync.Pool{New: func() any { return &Entry[K, V]{} }}
@@ -744,10 +749,15 @@ func (s *Store[K, V]) sinkWrite(item WriteBufItem[K, V]) {
 }
 
 func (s *Store[K, V]) drainWrite() {
-	var wait bool
+	// markers of Wait calls found in this batch: every caller is woken through its
+	// own channel once the whole batch has been applied. (A single shared channel
+	// with one wake-up per batch loses wake-ups when two callers share a batch, and
+	// lets a caller consume the wake-up of an earlier marker before its own
+	// marker - and the writes queued in front of it - have been processed.)
+	var waits []uint64
 	for _, item := range s.writeBuffer {
 		if item.code == WAIT {
-			wait = true
+			waits = append(waits, item.hash)
 			continue
 		}
 		s.sinkWrite(item)
@@ -760,8 +770,14 @@ func (s *Store[K, V]) drainWrite() {
 	}
 
 	s.writeBuffer = s.writeBuffer[:0]
-	if wait {
-		s.waitChan <- true
+	for _, id := range waits {
+		s.waitMu.Lock()
+		ch := s.waiters[id]
+		delete(s.waiters, id)
+		s.waitMu.Unlock()
+		if ch != nil {
+			close(ch)
+		}
 	}
 }
 
@@ -986,8 +1002,14 @@ func (s *Store[K, V]) processSecondary() {
 
 // Wait blocks until the write channel is drained.
 func (s *Store[K, V]) Wait() {
-	s.writeChan <- WriteBufItem[K, V]{code: WAIT}
-	<-s.waitChan
+	ch := make(chan struct{})
+	s.waitMu.Lock()
+	s.waitSeq++
+	id := s.waitSeq
+	s.waiters[id] = ch
+	s.waitMu.Unlock()
+	s.writeChan <- WriteBufItem[K, V]{code: WAIT, hash: id}
+	<-ch
 }
 
 func (s *Store[K, V]) Recover(version uint64, reader io.Reader) error {
